@@ -82,7 +82,9 @@ def check_try(ctx, cfg, key, boxed):
     b = ctx.body(cfg, key, "C07.O")
     if b is None:
         return
-    a = ctx.analysis(cfg, key)
+    # judged per path (helpers expanded, the loop-free part tree-shaped): what a shared helper established on each of its return paths is
+    # still known where the caller looks at its result
+    a = ctx.analysis_inl(cfg, key, split=True)
     N = a.tenv.length({"k": "param", "n": b["generics"][1]["n"]})
     oks, errs = results(a)
     nexts = [c for c in a.calls if c.fn == "core::iter::Iterator::next"]
@@ -90,8 +92,11 @@ def check_try(ctx, cfg, key, boxed):
     into = [c for c in a.calls if c.fn == "core::iter::IntoIterator::into_iter" and c.args[0] == ("V", "arg", 1)]
     it_local = into[0].term["dest"]["l"] if into else None
     polls = [c for c in nexts if c.args[0][0] == "P" and c.args[0][1] == ("local", it_local)]
-    # fullness term
-    if not boxed:
+    # fullness term (the boxed constructor may fill a boxed uninitialised array through the builder, exactly as the unboxed one does, instead of
+    # collecting into a Vec: it is then judged by the same rules, plus the hand-over of the box under `full`)
+    vec_form = boxed and any(c.fn == "core::iter::Extend::extend" for c in a.calls)
+    builder_form = not vec_form
+    if builder_form:
         full_calls = [c for c in a.calls if c.key == "IntrusiveArrayBuilder<$0,$1>::is_full"]
         full_terms = [c.ret[1] for c in full_calls if c.ret[0] == "B" and c.ret[1][0] == "cmp"]
         def is_full(facts, bb=None):
@@ -103,12 +108,12 @@ def check_try(ctx, cfg, key, boxed):
         lens = [c for c in a.calls if c.fn == "alloc::vec::Vec::<T, A>::len" and c.ret[0] == "I"]
         ext = [c for c in a.calls if c.fn == "core::iter::Extend::extend"]
         vec_base = ext[0].args[0][1] if ext and ext[0].args[0][0] == "P" else None
-        lens = [c for c in lens if c.args[0][0] == "P" and c.args[0][1] == vec_base and ext and a.dominates(ext[0].bb, c.bb)]
+        lens = [c for c in lens if c.args[0][0] == "P" and c.args[0][1] == vec_base and any(a.dominates(e_.bb, c.bb) for e_ in ext)]
         def is_full(facts, bb=None):
             return any(a.prove(facts, "Eq", c.ret[1], N) for c in lens)
     # a Result handed on unchanged from the crate's own Vec / boxed-slice conversion (Ok iff the length is N: C15.G) is a possible Ok as well
     convs = [c for c in a.calls if c.key in CONV_KEYS]
-    if boxed:
+    if vec_form:
         for c in convs:
             if (c.term["dest"]["l"] == 0 and not c.term["dest"]["p"]) or any(r["val"] == c.ret for r in a.returns):
                 oks.append({"facts": c.facts, "site": (c.bb, None), "conv": c.key})
@@ -128,7 +133,7 @@ def check_try(ctx, cfg, key, boxed):
     # a poll inside a fill loop is part of the fill: exactly one per stored slot, and its None edge leaves without polling again
     from ..loops import find_loops
     in_fill = []
-    for lp in ([] if boxed else find_loops(a)):
+    for lp in ([] if vec_form else find_loops(a)):
         mine = [p_ for p_ in polls if p_.bb in lp.blocks]
         if not mine or not is_fill_loop(ctx, cfg, a, b, lp):
             continue
@@ -158,7 +163,7 @@ def check_try(ctx, cfg, key, boxed):
         ctx.ob("C07.H", "%s#early_err" % key, not bad, "%d early Err exit(s) (before any element is taken); each requires lower > N or (upper = Some(u), u < N); unjustified: %s" % (len(early), bad or "none"), at=b["at"], cfg=cfg)
     # C07.Z (call-site part): the fill, judged on the body with the builder's extend() expanded in place - so `builder.extend(&mut iter)` and a
     # hand-written `destination.zip(&mut iter).for_each(..)` are the same code to this rule
-    if not boxed:
+    if builder_form:
         az = ctx.analysis_inl(cfg, key, force=tuple(K_EXT), tag="fill")
         owners = owner_adts(ctx.db(cfg))
         into_z = [c for c in az.calls if c.fn == "core::iter::IntoIterator::into_iter" and c.args[0] == ("V", "arg", 1)]
@@ -206,9 +211,15 @@ def check_try(ctx, cfg, key, boxed):
                 det = "fill = loop over the tracked builder's whole array (destination polled first, from slot 0, no adaptor; builder protocol per step): True; one source poll and one store per continuing step: %s; the polled item is stored into the slot of that step: %s; a None from the source leaves the loop without another poll: %s" % (one, w_ok, leave)
                 break
         ctx.ob("C07.Z", key + "#fill", ok, det, at=b["at"], cfg=cfg)
+        if boxed:
+            # the filled box becomes the result only under `full`: the raw hand-over written out (equal layouts are C16.P's obligation on this body)
+            raw = [c for c in a.calls if c.fn.endswith("::from_raw") and "Box::<T" in c.fn]
+            okv = bool(raw) and all(is_full(c.facts, c.bb) for c in raw)
+            ctx.ob("C07.O", key + "#convert", okv, "%s reached only when the builder is full: %s" % ([c.fn.split("::")[-1] for c in raw], okv), at=b["at"], cfg=cfg)
     else:
         ex = [c for c in a.calls if c.fn == "core::iter::Extend::extend"]
-        ok = len(ex) == 1
+        # (the per-path analysis repeats a call site once per path through it: one site in the source is what counts)
+        ok = len({(c.at, a.blocks[c.bb].get("split_of", c.bb)) for c in ex}) == 1 and len({repr(c.args) for c in ex}) == 1
         det = "expected Vec::extend((&mut iter).take(N))"
         if ok:
             src = ex[0].args[1]
@@ -217,7 +228,7 @@ def check_try(ctx, cfg, key, boxed):
                 inner = inner[3]  # Iterator::by_ref's provided body is `self` (an iterator type overriding it is outside the claim)
             ok = inner is not None and inner[0] == "P" and inner[1] == ("local", it_local) and src[4] == ("I", N)
             wc = [c for c in a.calls if c.fn == "alloc::vec::Vec::<T>::with_capacity"]
-            cap = len(wc) == 1 and wc[0].args[0] == ("I", N)
+            cap = len({(c.at, a.blocks[c.bb].get("split_of", c.bb)) for c in wc}) == 1 and all(c.args[0] == ("I", N) for c in wc)
             det = "source = take(&mut iter, N): %s; Vec::with_capacity(N): %s" % (ok, cap)
             ok = ok and cap
         ctx.ob("C07.Z", key + "#fill", ok, det, at=b["at"], cfg=cfg)
